@@ -215,6 +215,9 @@ func genLexText(rnd *rand.Rand) string {
 		sb.WriteString("---" + nl)
 		depth := 0
 		lines := rnd.Intn(14)
+		if rnd.Intn(10) == 0 {
+			lines = 60 + rnd.Intn(200) // long bodies, deep staircases
+		}
 		for i := 0; i < lines; i++ {
 			switch r := rnd.Intn(10); {
 			case r < 2: // blank or whitespace-only line of arbitrary width
@@ -235,8 +238,8 @@ func genLexText(rnd *rand.Rand) string {
 					depth -= 1 + rnd.Intn(depth)
 				}
 			}
-			if depth > 5 {
-				depth = 5
+			if depth > 10 {
+				depth = 10
 			}
 			pre := indent(depth)
 			if rnd.Intn(12) == 0 { // ragged indentation (between two levels)
